@@ -1,4 +1,5 @@
 import TangeloModel.Measure
+import TangeloProofs.Lemmas.MeasRefines
 import TangeloProofs.Lemmas.SemBasic
 import TangeloProofs.Lemmas.Isometry
 import TangeloProofs.CycLaws
@@ -207,5 +208,16 @@ theorem split_conserves (freqs : List (List Bool × Rat)) (n : Nat) :
 example : AllPreserve (fun z : ℚ => z * z) 1 [Step.apply id, Step.cmeasure 0 [Step.measure 0] [], Step.measure 0] :=
   AllPreserve.apply id _ (fun _ => rfl) (AllPreserve.cmeasure 0 _ _ _ (AllPreserve.measure 0 _ AllPreserve.nil) AllPreserve.nil
     (AllPreserve.measure 0 _ AllPreserve.nil))
+
+/-! ## the executable conditioned simulation refines the specification -/
+
+/-- **what the model driver returns for a branch is the specified post-measurement state** (unnormalised projection
+    after every measurement, selected gate lists after every controlled measurement), for every program inside the
+    register and every outcome string; with `driver_state_is_specified` (C01) this makes the theorems about `proj` and
+    `semOps` statements about the vectors the correspondence compares with the backends -/
+theorem branch_state_is_specified (n fuel : Nat) (prog : List MGate) (des : List Bool) (acc : BranchOut) (ψ : State Cyc)
+    (hp : ProgInReg n prog) (hacc : acc.sv = tabulate n ψ) :
+    (runBranch n fuel prog des acc).map (·.sv) = (specBranch fuel prog des ψ).map (tabulate n) :=
+  runBranch_refines n fuel prog des acc ψ hp hacc
 
 end Tangelo.C10
